@@ -108,3 +108,43 @@ func shortFn(fn string) string {
 	}
 	return fn
 }
+
+// raceStacksAllThrough reports whether every access stack of every race report in text (stacks the race runtime
+// could not restore are skipped, but each report must have at least one) passes through a function whose name
+// contains marker.
+func raceStacksAllThrough(text, marker string) bool {
+	reports := 0
+	for _, block := range strings.Split(text, "==================") {
+		if !strings.Contains(block, "DATA RACE") {
+			continue
+		}
+		reports++
+		lines := strings.Split(block, "\n")
+		stacks := 0
+		for i := 0; i < len(lines); i++ {
+			if !raceHead.MatchString(lines[i]) {
+				continue
+			}
+			frames, through := 0, false
+			for j := i + 1; j < len(lines) && strings.TrimSpace(lines[j]) != ""; j++ {
+				if m := raceFrame.FindStringSubmatch(lines[j]); m != nil {
+					frames++
+					if strings.Contains(m[1], marker) {
+						through = true
+					}
+				}
+			}
+			if frames == 0 {
+				continue
+			}
+			stacks++
+			if !through {
+				return false
+			}
+		}
+		if stacks == 0 {
+			return false
+		}
+	}
+	return reports > 0
+}
